@@ -7,7 +7,7 @@ from canon import coq_fs, coq_str, coq_z, coq_opt, coq_list, coq_cells, coq_res
 ID = "C06"
 LEVEL = "proof"
 PROPS_FILE = "Props/C06.v"
-EXTRA_PROPS = ("Props/C06Tie.v", "Props/C06TieGetitem.v", "Props/C06TieAdd.v", "Props/C06TieRadd.v")
+EXTRA_PROPS = ("Props/C06Tie.v", "Props/C06TieGetitem.v", "Props/C06TieAdd.v", "Props/C06TieRadd.v", "Props/C06TieJoin.v", "Props/C06TieMul.v")
 CORR_VO = "Corr/C06.vo"
 REQUIRE = "From Curtsies Require Import Model.Base Model.Slice Corr.C06."
 CASE_TYPE = "C06.case"
@@ -24,11 +24,12 @@ RULE = ("small scope: every run layout with <= 3 runs of 0..3 characters and eve
         "step (NotImplementedError, model only). observation: per-character (char, attributes) list of the result, "
         "len(result), exception class. non-trivial = an operand has at least one character; distinct = distinct input")
 GENERATORS = ("gen/gen_pure.py",)
-PURE_HELPERS = ('normalize_slice', 'FmtStr_getitem', 'FmtStr_add', 'FmtStr_radd')
+PURE_HELPERS = ('normalize_slice', 'FmtStr_getitem', 'FmtStr_add', 'FmtStr_radd', 'FmtStr_join', 'FmtStr_mul')
 TRUSTED = [
-    "translator gen/gen_pure.py (dumps the Python AST of normalize_slice and of FmtStr.__getitem__ / __add__ / __radd__ / Chunk.s / "
+    "translator gen/gen_pure.py (dumps the Python AST of normalize_slice and of FmtStr.__getitem__ / __add__ / __radd__ / join / __mul__ / Chunk.s / "
     "Chunk.atts / Chunk.__len__ node by node into coq/Gen/Pure.v, coq/Gen/PureFmt.v) and the reference semantics of that Python subset "
-    "coq/Spec/PyMini.v (for loops over lists, break, objects as records of instance attributes, local lists with append), "
+    "coq/Spec/PyMini.v (for loops over lists, break, objects as records of instance attributes, local lists with append / extend, "
+    "range(n) as an iterable, sum(iterable, start) with + dispatched to the generated __add__), "
     "itself run against CPython on enumerated arguments in every check",
     "oracles of coq/Spec/PyEnvFmt.v used by the tie of __getitem__: len(fs) = sum of the run lengths (FmtStr.__len__ is memoised: "
     "attribute assignment is outside the subset), Chunk(s, atts), FmtStr(*parts), fmtstr('') = one empty unformatted run; "
@@ -36,9 +37,13 @@ TRUSTED = [
     "Coq 8.16.1 kernel incl. vm_compute (no native_compute); Print Assumptions: closed under the global context",
     "reference list semantics coq/Spec/ListOps.v (pyslice = slice.indices for step None, pyindex, repeat, join)",
     "harness canonicaliser harness/canon.py (FmtStr runs -> cells -> Coq literal) and the parser of coqc's answer",
-    "in the hand model, tied to the text for __getitem__, __add__, __radd__ (C06_getitem_is_the_repository_method, "
-    "C06_add_is_the_repository_method, C06_radd_is_the_repository_method): Python list +/extend, built-in str slicing (= pyslice), "
-    "isinstance dispatch; modelled, not tied: sum() / range() of __mul__, the loop of join",
+    "in the hand model, tied to the text for __getitem__, __add__, __radd__, join, __mul__ (C06_getitem_is_the_repository_method, "
+    "C06_add_is_the_repository_method, C06_radd_is_the_repository_method, C06_join_is_the_repository_method, "
+    "C06_mul_is_the_repository_method): Python list +/extend, built-in str slicing (= pyslice), "
+    "isinstance dispatch, the loop of join, sum() / range() of __mul__",
+    "oracle of coq/Spec/PyEnvFmt.v used by the tie of join: fmtstr(s) = one unformatted run for a str s without ESC[ / CSI "
+    "(the parsing branch is C05/C17's subject); the tie of join is for LISTS of items (a generator argument is not a value "
+    "of the theorem's quantifier)",
 ]
 ASSUMPTIONS = ["operands of + and items of join are str or FmtStr (other types: NotImplemented/TypeError paths not modelled)",
                "a plain str item of join does not contain ESC[ (it goes through fmtstr(), whose parser is C05/C17); "
